@@ -15,6 +15,10 @@ NODE = "swcgeom/core/node.py"
 TREE = "swcgeom/core/tree.py"
 OPTS = dict(models=X.MODELS)
 
+from pyvc import ext_tables  # noqa: E402
+
+ext_tables.chain(X.ModelsProxy)  # getattr-built caches / lookup tables: np.bincount, np.argsort, np.searchsorted, np.add.at, np.flatnonzero on symbolic columns
+
 
 def node_obj(S, t, idx=None):
     from swcgeom.core.tree import Tree
@@ -1837,3 +1841,8 @@ def register(R):  # noqa: F811
     _reg8(R)
     register_whole(R)
     register_branch_tree(R)
+    # the property speaks about HISTORIES of queries on one tree: whatever a query leaves on its inputs is arbitrary when the next one is entered
+    # (pyvc/extra_attrs.py); the inputs themselves are frozen (safety/frame-attr-write, safety/frame-write)
+    for c in R.values():
+        if c.prop == "C08":
+            c.options.setdefault("extra_attrs_arbitrary", True)
